@@ -25,3 +25,8 @@ check("C08", "model_checking",
   "Generation order is observed at the emitter (hook), delivery to log-only handlers commutes; same bounds as C02.",
   "stateless model checking of the implementation: replay DFS over client histories x activity orders, message-stream monitor",
   "DESIGN.md section 4 C08")
+check("C10", "model_checking",
+  "Reference-state graph with edge conformance: for each of the six collections and both back ends every edge (create, update, delete, also of absent ids) from every one of the 3^n reference states is executed on the real DbCollection and read back completely (find, exists, full scan, field by field), each state is built by two different paths, every operation sequence up to a depth is enumerated from the empty table, and at every state a battery of ~10^4 queries (AND/OR shapes with hit and miss sub-conditions, typed ordering, windows, totals) is compared with a reference evaluation. Because the read-back covers the whole state of a collection, induction over edges extends the CRUD verdict to every operation sequence over the alphabet.",
+  "Records: 3 (quick) / 4 (thorough) with all fields distinct and non-default; query keys are non-optional columns; duplicate-id creation and string lt/gt are not judged; SQLite on a scratch file per item.",
+  "explicit-state exploration of a reference model (map id -> version) with conformance of every edge and of a query battery against the implementation",
+  "DESIGN.md section 4 C10")
